@@ -150,6 +150,10 @@ impl Axecutor {
             let read_end = rand::thread_rng().gen::<u16>() as u64 + 1024;
             let write_end = rand::thread_rng().gen::<u16>() as u64 + 1024;
             assert_fatal!(
+                read_end != write_end,
+                "Duplicate descriptor for both ends of the pipe"
+            );
+            assert_fatal!(
                 !ax.state.syscalls.pipes_read_ends.contains_key(&read_end),
                 "Duplicate read end for pipe"
             );
